@@ -329,12 +329,18 @@ class Heap:
     def __init__(self):
         self.arrays = {}
         self.written = set()
+        self.owner = None          # the State (for guarded_by bookkeeping)
 
     def copy(self):
         h = Heap()
         h.arrays = dict(self.arrays)
         h.written = set(self.written)
         return h
+
+    def _guard(self, cls, field, mode):
+        lock = getattr(cls, 'guarded_by', None)
+        if lock is not None and self.owner is not None and lock not in self.owner.locks_held:
+            self.owner.notes.append(('unguarded', cls.name, field, mode))
 
     @staticmethod
     def field_sort(cls, field):
@@ -364,9 +370,11 @@ class Heap:
         return self.arrays[k]
 
     def read(self, cls, field, ref_z):
+        self._guard(cls, field, 'read')
         return z3.Select(self.arr(cls, field), ref_z)
 
     def write(self, cls, field, ref_z, val_z):
+        self._guard(cls, field, 'write')
         k = (cls.name, field)
         self.arrays[k] = z3.Store(self.arr(cls, field), ref_z, val_z)
         self.written.add(k)
